@@ -117,7 +117,9 @@ class Server(QueuedResource):
         # The driver asks has_capacity() before it knows which request it will
         # get; the queue releases a request only if capacity fits *its* weight,
         # so a heavy request waits instead of being dequeued and then discarded.
-        self.queue.dispatch_guard = self._fits
+        # The capacity is taken at that very moment (see _admit).
+        self.queue.dispatch_guard = self._admit
+        self._admitted: dict[Event, int] = {}
 
         # Statistics
         self._requests_completed = 0
@@ -216,10 +218,27 @@ class Server(QueuedResource):
             total_service_time=self._total_service_time,
         )
 
-    def _fits(self, event: Event) -> bool:
-        """Whether free capacity covers the weight this request declares."""
+    def _admit(self, event: Event) -> bool:
+        """Dispatch guard: acquire capacity for a request as the queue releases it.
+
+        Acquiring here rather than when the request reaches the worker (a few
+        events later on the same instant) makes dequeue and admission one
+        step: a limit lowered in between cannot leave a dequeued request
+        without a slot, and has_capacity() already counts the request that is
+        on its way.
+        """
+        # Only one poll is outstanding at a time, so a reservation still here
+        # belongs to a request that never reached the worker (it was dropped
+        # on the way, e.g. while the server was down).
+        for orphan_weight in self._admitted.values():
+            self._concurrency_model.release(orphan_weight)
+        self._admitted.clear()
+
         weight = event.context.get("metadata", {}).get("weight", 1)
-        return self._concurrency_model.has_capacity(weight)
+        if not self._concurrency_model.acquire(weight):
+            return False
+        self._admitted[event] = weight
+        return True
 
     def has_capacity(self, weight: int = 1) -> bool:
         """Check if server can accept another request.
@@ -252,8 +271,11 @@ class Server(QueuedResource):
         # Get weight from event context (for weighted concurrency)
         weight = event.context.get("metadata", {}).get("weight", 1)
 
-        # Acquire processing capacity
-        acquired = self._concurrency_model.acquire(weight)
+        # Acquire processing capacity (already done if the request came
+        # through the queue's dispatch guard)
+        acquired = self._admitted.pop(event, None) is not None
+        if not acquired:
+            acquired = self._concurrency_model.acquire(weight)
         if not acquired:
             # This shouldn't happen if queue driver checks has_capacity,
             # but handle gracefully
